@@ -722,6 +722,10 @@ def main(run):
     for i in run.mine({"quick": 60, "thorough": 1500}[run.tier]):
         k_cli(run, run.case("cli", i, force_tol=[0.0, 0.05, 0.0, 0.3][i % 4], force_all_pairs=bool(i % 3 != 0),
                             force_unit="mrdf"[(i // 2) % 4]))
+    for i in run.mine({"quick": 24, "thorough": 300}[run.tier]):
+        # a metre delta longer than the raw path of a small-scale estimate, inside the scale-corrected one
+        k_cli(run, run.case("cli", 10**6 + i, force_all_pairs=bool(i % 2), force_unit="m", small_est=True,
+                            force_options=["scale"] + (["align"] if i % 4 < 2 else [])))
     for i in run.mine({"quick": 16, "thorough": 300}[run.tier]):
         k_threads(run, run.case("threads", i))
     for i in run.mine({"quick": 10, "thorough": 120}[run.tier]):
